@@ -41,6 +41,21 @@ struct Run<'a> {
     members: Vec<Option<(TcpClient, u32)>>, // index 1..=2: (client, server-side client id)
     next_m: u64,
     rng: Rng,
+    tick: u64,
+}
+
+/// The command's field is private: the real verifier hands us one (allowed silence: 1.2 x 10 ms - far below one clock tick).
+fn obtain_heartbeat_command() -> server::channels::commands::verify_heartbeats::VerifyHeartbeatsCommand {
+    use std::str::FromStr;
+    let rt = tokio::runtime::Builder::new_current_thread().enable_all().build().unwrap();
+    let cmd = rt.block_on(async {
+        let (tx, rx) = flume::unbounded();
+        let cfg = server::configs::server::HeartbeatConfig { enabled: true, interval: iggy::utils::duration::IggyDuration::from_str("10ms").unwrap() };
+        server::channels::commands::verify_heartbeats::VerifyHeartbeats::new(&cfg, tx).start();
+        rx.recv_async().await.expect("heartbeat command")
+    });
+    rt.shutdown_background();
+    cmd
 }
 
 fn ident(r: &Value) -> Option<Identifier> {
@@ -69,6 +84,7 @@ impl CatLens {
             members: vec![None, None, None],
             next_m: 1,
             rng: Rng(scn.seed ^ 0xca7),
+            tick: 0,
         };
         let r = self.run_inner(idx, &mut run, out);
         run.members.clear();
@@ -270,12 +286,48 @@ impl CatLens {
                     (res_of(&r), 0)
                 }
                 "delete_user" => (res_of(&inc.rt.block_on(a.delete_user(&need!(ident(&step["u"]))))), 0),
-                "disconnect" | "restart" => ("ok".to_string(), 0),
+                "disconnect" | "restart" | "expire" => ("ok".to_string(), 0),
                 other => return Err(format!("unknown op {other}")),
             }
         };
         let mut res = res;
         match op.as_str() {
+            "expire" => {
+                // client c misses its heartbeat: the clock moves on (hook H1) beyond the allowed interval, every OTHER connection
+                // pings, and the server's REAL heartbeat verification runs; c's connection is then replaced by a fresh one
+                let c = step["c"].as_u64().unwrap_or(1) as usize;
+                let inc = run.inc.as_ref().unwrap();
+                run.tick += 1;
+                srv::set_tick(run.tick);
+                if let Some(a) = run.admin.as_ref() {
+                    let _ = inc.rt.block_on(a.ping());
+                }
+                for (k, m) in run.members.iter().enumerate() {
+                    if k != c {
+                        if let Some((cl, _)) = m {
+                            let _ = inc.rt.block_on(iggy::client::SystemClient::ping(cl));
+                        }
+                    }
+                }
+                let cmd = obtain_heartbeat_command();
+                let system = inc.system.clone();
+                let h = inc.rt.spawn(async move {
+                    let mut ex = server::channels::commands::verify_heartbeats::VerifyHeartbeatsExecutor;
+                    server::channels::server_command::ServerCommand::execute(&mut ex, &system, cmd).await;
+                });
+                if inc.rt.block_on(h).is_err() {
+                    res = "panic".to_string();
+                }
+                if let Some((cl, _)) = run.members[c].take() {
+                    drop(cl);
+                    let ncl = inc.rt.block_on(srv::tcp_root(inc.tcp))?;
+                    let me = inc
+                        .rt
+                        .block_on(async { iggy::client::SystemClient::get_me(&ncl).await })
+                        .map_err(|e| format!("get_me: {e}"))?;
+                    run.members[c] = Some((ncl, me.client_id));
+                }
+            }
             "disconnect" => {
                 let c = step["c"].as_u64().unwrap_or(1) as usize;
                 if let Some((cl, old_id)) = run.members[c].take() {
